@@ -845,10 +845,27 @@ func c12StyleEffects(p *c12Path) []c12Effect {
 	var out []c12Effect
 	for _, ef := range p.Effects {
 		if ef.Field != nil && strings.HasPrefix(ef.Path, "Model.cursor.") && ef.Field.Pkg() != nil && ef.Field.Pkg().Path() == modPath {
+			if c12IdentityEffect(ef) {
+				continue
+			}
 			out = append(out, ef)
 		}
 	}
 	return out
+}
+
+// c12IdentityEffect: an update that cannot change the field whatever it holds (x |= 0, x &^= 0, x ^= 0, x += 0,
+// x -= 0, x <<= 0, x >>= 0): the unused half of a table row that carries both a set mask and a clear mask.
+func c12IdentityEffect(ef c12Effect) bool {
+	i, ok := ef.Val.(c12Int)
+	if !ok || i.V != 0 {
+		return false
+	}
+	switch ef.Op {
+	case token.OR_ASSIGN, token.AND_NOT_ASSIGN, token.XOR_ASSIGN, token.ADD_ASSIGN, token.SUB_ASSIGN, token.SHL_ASSIGN, token.SHR_ASSIGN:
+		return true
+	}
+	return false
 }
 
 func (st *c12State) checkSGREffect(e *Emission, s Seq, label string, sub map[int]int64, args []ast.Expr, h0 int, intent c12Intent, paths []*c12Path) {
